@@ -1,4 +1,7 @@
 //! vcheck — model-checking harness for rust-vmm/acpi_tables (see /verif/DESIGN.md).
+mod aml;
+mod amlobj;
+mod codecs;
 mod ev;
 mod fill;
 mod props;
@@ -36,6 +39,34 @@ fn main() {
     rayon::ThreadPoolBuilder::new().num_threads(threads).stack_size(64 << 20).build_global().ok();
     let ctx: &'static Ctx = Box::leak(Box::new(Ctx::new(&args[1], tier)));
     let code = match args[1].as_str() {
+        "C06" => {
+            props::c06::run(ctx);
+            ctx.finish(props::c06::RULE, props::c06::ASSUME)
+        }
+        "C07" => {
+            props::c07::run(ctx);
+            ctx.finish(props::c07::RULE, props::c07::ASSUME)
+        }
+        "C08" => {
+            props::c08::run(ctx);
+            ctx.finish(props::c08::RULE, props::c08::ASSUME)
+        }
+        "C09" => {
+            props::c09::run(ctx);
+            ctx.finish(props::c09::RULE, props::c09::ASSUME)
+        }
+        "C10" => {
+            props::c10::run(ctx);
+            ctx.finish(props::c10::RULE, props::c10::ASSUME)
+        }
+        "C15" => {
+            props::c15::run(ctx);
+            ctx.finish(props::c15::RULE, props::c15::ASSUME)
+        }
+        "C16" => {
+            props::c16::run(ctx);
+            ctx.finish(props::c16::RULE, props::c16::ASSUME)
+        }
         "C17" => {
             props::c17::run(ctx);
             ctx.finish(props::c17::RULE, props::c17::ASSUME)
